@@ -5,7 +5,8 @@
 //! `case <id> init pw=<device passcode>`
 //! ops: `open t=<secs>` | `revoke`
 //!      `hs ipw=<initiator's passcode> [mut=<resp|pake2|status>:<how>]`   one complete handshake of the real initiator
-//!   how (any target): `bit<n>` one payload bit flipped (index modulo the payload length) | `status` the message is
+//!   how (any target): `bit<n>` one payload bit flipped (index modulo the payload length) | `last` one bit of the last
+//!        payload byte (the end-of-container marker) flipped | `trail` one byte appended | `status` the message is
 //!        replaced by a StatusReport InvalidParameter | `opcode` the opcode is replaced by another one
 //!   resp:   `rnd` echoed random changed | `rrand` responder random changed | `ssid` responder session id + 1 |
 //!           `iter` iteration count + 1 | `salt` one salt byte changed | `salt15` / `salt33` / `salt0` salt of that length |
@@ -70,6 +71,19 @@ fn mutate(opcode: u8, payload: &[u8], how: &str) -> (u8, Vec<u8>) {
         return (opcode, v);
     }
     match how {
+        // the envelope: the end-of-container marker (last byte) altered / a byte appended
+        "last" => {
+            let mut v = payload.to_vec();
+            if let Some(b) = v.last_mut() {
+                *b ^= 0x01;
+            }
+            return (opcode, v);
+        }
+        "trail" => {
+            let mut v = payload.to_vec();
+            v.push(0x18);
+            return (opcode, v);
+        }
         "status" => return (OpCode::StatusReport as u8, status_payload(1, SCStatusCodes::InvalidParameter as u16)),
         "opcode" => return (if opcode == OpCode::PASEPake3 as u8 { OpCode::PASEPake1 as u8 } else { OpCode::PASEPake3 as u8 }, payload.to_vec()),
         "fail" => return (opcode, status_payload(1, SCStatusCodes::InvalidParameter as u16)),
@@ -131,6 +145,11 @@ fn mutate(opcode: u8, payload: &[u8], how: &str) -> (u8, Vec<u8>) {
 fn classify(orig_opcode: u8, orig: &[u8], opcode: u8, payload: &[u8]) -> String {
     if opcode != orig_opcode {
         return if opcode == OpCode::StatusReport as u8 { "status".into() } else { "opcode".into() };
+    }
+    // the root structure must be terminated and span the payload (`get_root_node_struct`, as the initiator demands
+    // since the repair of C02-initiator-tlv-envelope)
+    if opcode != OpCode::StatusReport as u8 && rs_matter::tlv::get_root_node_struct(payload).is_err() {
+        return "parse".into();
     }
     if opcode == OpCode::PBKDFParamResponse as u8 {
         let oir = dec_pbkdf_resp(orig, |ir, _, _, _, _| ir.to_vec()).unwrap_or_default();
